@@ -262,6 +262,12 @@ def fmul_cancel(a, b1, b2):
     P.axiom(z3.Implies(z3.And(a != 0, fmul(a, b1) == fmul(a, b2)), b1 == b2))
 
 
+def fmul_assoc(a, b, c):
+    """Lemma instance (associativity in F_p): (a*b)*c == a*(b*c)."""
+    P = cur()
+    P.axiom(fmul(fmul(a, b), c) == fmul(a, fmul(b, c)))
+
+
 def idivmod(a, b):
     """Python floor divmod of z3 Int terms, b known non-zero on this path."""
     a = z3.simplify(a)
